@@ -594,6 +594,11 @@ func isDeletedOrExpired(meta byte, expiresAt uint64) bool {
 	if expiresAt == 0 {
 		return false
 	}
+	if y.VerifEnabled {
+		if now, ok := y.VerifNowUnix(); ok {
+			return expiresAt <= now
+		}
+	}
 	return expiresAt <= uint64(time.Now().Unix())
 }
 
